@@ -211,7 +211,7 @@ def end_to_end(res, n):
                 spec += f"where len(str(<start>)) >= {rng.randint(0, 3)}\n"
             random.seed(res.seed + i)
             fan = Fandango(spec)
-            sols = fan.fuzz(desired_solutions=3, max_generations=15, population_size=12)
+            sols = common.guarded(lambda: fan.fuzz(desired_solutions=3, max_generations=15, population_size=12), 30)
             res.count(("e2e", spec), nontrivial=True)
             res.bump("e2e_specs")
             if i == 0:
